@@ -173,7 +173,8 @@ detail::temporary_allocator_dtor_t::temporary_allocator_dtor_t() noexcept
 
 detail::temporary_allocator_dtor_t::~temporary_allocator_dtor_t() noexcept
 {
-    if (--nifty_counter == 0u && temp_stack)
+    // also if this thread has no stack (any more): other threads might have created some
+    if (--nifty_counter == 0u)
         temporary_stack_list_obj.destroy();
 }
 
